@@ -1,0 +1,269 @@
+//go:build verif
+
+package main
+
+// Verification hook (build tag "verif"): gives an external harness access to the grammar
+// front-end of package main, which cannot be imported. It does nothing unless the environment
+// variable PIGEON_VERIF is set; with the tag off this file is not compiled.
+//
+//	PIGEON_VERIF=astdump   read requests {"id":n,"text":[bytes],"mode":"pigeon"|"bootstrap"} (one JSON
+//	                       object per line) from stdin, write {"id":n,"ok":bool,"errs":[..],"ast":..}
+//	PIGEON_VERIF=rebuild   read requests {"id":n,"text":[bytes],"times":k,"optimize":bool,"lr":bool,...}
+//	                       and write the digests of k builds of the same text inside this process
+
+import (
+	"bufio"
+	"bytes"
+	"crypto/sha256"
+	"encoding/hex"
+	"encoding/json"
+	"fmt"
+	"os"
+
+	"github.com/mna/pigeon/ast"
+	"github.com/mna/pigeon/bootstrap"
+	"github.com/mna/pigeon/builder"
+)
+
+type verifReq struct {
+	ID       int      `json:"id"`
+	Text     []int    `json:"text"`
+	Mode     string   `json:"mode"`
+	Times    int      `json:"times"`
+	Optimize bool     `json:"optimize"`
+	LR       bool     `json:"lr"`
+	OptParse bool     `json:"optparser"`
+	Latin    bool     `json:"latin"`
+	Entry    []string `json:"entry"`
+}
+
+type verifNode struct {
+	T     string      `json:"t"`
+	Pos   []int       `json:"pos"`
+	Kids  []verifNode `json:"kids"`
+	Val   []int       `json:"val"`
+	Name  string      `json:"name"`
+	IC    bool        `json:"ic"`
+	Inv   bool        `json:"inv"`
+	Chars []int       `json:"chars"`
+	Rngs  []int       `json:"rngs"`
+	Ucl   []string    `json:"ucl"`
+	Labs  []string    `json:"labs"`
+}
+
+func verifInts(s string) []int {
+	r := make([]int, 0, len(s))
+	for _, b := range []byte(s) {
+		r = append(r, int(b))
+	}
+	return r
+}
+
+func verifRunes(rs []rune) []int {
+	r := make([]int, 0, len(rs))
+	for _, x := range rs {
+		r = append(r, int(x))
+	}
+	return r
+}
+
+func verifPos(p ast.Pos) []int { return []int{p.Line, p.Col, p.Off} }
+
+func verifCode(c *ast.CodeBlock) []verifNode {
+	if c == nil {
+		return []verifNode{}
+	}
+	return []verifNode{verifMk("Code", c.Pos(), verifInts(c.Val))}
+}
+
+func verifMk(t string, p ast.Pos, val []int, kids ...verifNode) verifNode {
+	if val == nil {
+		val = []int{}
+	}
+	if kids == nil {
+		kids = []verifNode{}
+	}
+	return verifNode{T: t, Pos: verifPos(p), Kids: kids, Val: val, Chars: []int{}, Rngs: []int{}, Ucl: []string{}, Labs: []string{}}
+}
+
+func verifDump(e ast.Expression) verifNode {
+	switch x := e.(type) {
+	case *ast.ChoiceExpr:
+		n := verifMk("Choice", x.Pos(), nil)
+		for _, a := range x.Alternatives {
+			n.Kids = append(n.Kids, verifDump(a))
+		}
+		return n
+	case *ast.SeqExpr:
+		n := verifMk("Seq", x.Pos(), nil)
+		for _, a := range x.Exprs {
+			n.Kids = append(n.Kids, verifDump(a))
+		}
+		return n
+	case *ast.RecoveryExpr:
+		n := verifMk("Recover", x.Pos(), nil, verifDump(x.Expr), verifDump(x.RecoverExpr))
+		for _, l := range x.Labels {
+			n.Labs = append(n.Labs, string(l))
+		}
+		return n
+	case *ast.ActionExpr:
+		return verifMk("Action", x.Pos(), nil, append([]verifNode{verifDump(x.Expr)}, verifCode(x.Code)...)...)
+	case *ast.ThrowExpr:
+		n := verifMk("Throw", x.Pos(), nil)
+		n.Name = x.Label
+		return n
+	case *ast.LabeledExpr:
+		n := verifMk("Label", x.Pos(), nil, verifDump(x.Expr))
+		if x.Label != nil {
+			n.Name = x.Label.Val
+		}
+		return n
+	case *ast.AndExpr:
+		return verifMk("And", x.Pos(), nil, verifDump(x.Expr))
+	case *ast.NotExpr:
+		return verifMk("Not", x.Pos(), nil, verifDump(x.Expr))
+	case *ast.ZeroOrOneExpr:
+		return verifMk("Opt", x.Pos(), nil, verifDump(x.Expr))
+	case *ast.ZeroOrMoreExpr:
+		return verifMk("Star", x.Pos(), nil, verifDump(x.Expr))
+	case *ast.OneOrMoreExpr:
+		return verifMk("Plus", x.Pos(), nil, verifDump(x.Expr))
+	case *ast.RuleRefExpr:
+		n := verifMk("Ref", x.Pos(), nil)
+		if x.Name != nil {
+			n.Name = x.Name.Val
+		}
+		return n
+	case *ast.StateCodeExpr:
+		return verifMk("State", x.Pos(), nil, verifCode(x.Code)...)
+	case *ast.AndCodeExpr:
+		return verifMk("AndCode", x.Pos(), nil, verifCode(x.Code)...)
+	case *ast.NotCodeExpr:
+		return verifMk("NotCode", x.Pos(), nil, verifCode(x.Code)...)
+	case *ast.LitMatcher:
+		n := verifMk("Lit", x.Pos(), verifInts(x.Val))
+		n.IC = x.IgnoreCase
+		return n
+	case *ast.CharClassMatcher:
+		n := verifMk("Class", x.Pos(), verifInts(x.Val))
+		n.IC, n.Inv = x.IgnoreCase, x.Inverted
+		n.Chars, n.Rngs = verifRunes(x.Chars), verifRunes(x.Ranges)
+		n.Ucl = append(n.Ucl, x.UnicodeClasses...)
+		return n
+	case *ast.AnyMatcher:
+		return verifMk("Any", x.Pos(), nil)
+	case nil:
+		return verifMk("Nil", ast.Pos{}, nil)
+	}
+	return verifMk(fmt.Sprintf("%T", e), e.Pos(), nil)
+}
+
+func verifDumpGrammar(g *ast.Grammar) verifNode {
+	n := verifMk("Grammar", g.Pos(), nil)
+	if g.Init != nil {
+		n.Kids = append(n.Kids, verifMk("Init", g.Init.Pos(), verifInts(g.Init.Val)))
+	}
+	for _, r := range g.Rules {
+		if r == nil {
+			n.Kids = append(n.Kids, verifMk("NilRule", ast.Pos{}, nil))
+			continue
+		}
+		rn := verifMk("Rule", r.Pos(), nil, verifDump(r.Expr))
+		if r.Name != nil {
+			rn.Name = r.Name.Val
+		}
+		if r.DisplayName != nil {
+			rn.Val = verifInts(r.DisplayName.Val)
+			rn.IC = true // has a display name
+		}
+		n.Kids = append(n.Kids, rn)
+	}
+	return n
+}
+
+func verifText(t []int) []byte {
+	b := make([]byte, len(t))
+	for i, x := range t {
+		b[i] = byte(x)
+	}
+	return b
+}
+
+func init() {
+	mode := os.Getenv("PIGEON_VERIF")
+	if mode == "" {
+		return
+	}
+	in := bufio.NewReaderSize(os.Stdin, 1<<20)
+	out := bufio.NewWriter(os.Stdout)
+	enc := json.NewEncoder(out)
+	dec := json.NewDecoder(in)
+	for dec.More() {
+		var rq verifReq
+		if err := dec.Decode(&rq); err != nil {
+			fmt.Fprintln(os.Stderr, "verif hook: bad request:", err)
+			os.Exit(2)
+		}
+		text := verifText(rq.Text)
+		res := map[string]any{"id": rq.ID}
+		func() {
+			defer func() {
+				if e := recover(); e != nil {
+					res["panic"] = fmt.Sprint(e)
+					res["ok"] = false
+				}
+			}()
+			switch mode {
+			case "astdump":
+				var g *ast.Grammar
+				var err error
+				if rq.Mode == "bootstrap" {
+					g, err = bootstrap.NewParser().Parse("", bytes.NewReader(text))
+				} else {
+					var v any
+					v, err = ParseReader("", bytes.NewReader(text))
+					if v != nil {
+						g, _ = v.(*ast.Grammar)
+					}
+				}
+				res["ok"] = err == nil && g != nil
+				res["errs"] = ""
+				if err != nil {
+					res["errs"] = err.Error()
+				}
+				if g != nil {
+					res["ast"] = verifDumpGrammar(g)
+				}
+			case "rebuild":
+				digests := []string{}
+				for i := 0; i < rq.Times; i++ {
+					v, err := ParseReader("", bytes.NewReader(text))
+					if err != nil {
+						res["errs"] = err.Error()
+						break
+					}
+					g := v.(*ast.Grammar)
+					if rq.Optimize {
+						ast.Optimize(g, rq.Entry...)
+					}
+					var buf bytes.Buffer
+					err = builder.BuildParser(&buf, g, builder.Optimize(rq.OptParse), builder.BasicLatinLookupTable(rq.Latin),
+						builder.SupportLeftRecursion(rq.LR))
+					if err != nil {
+						digests = append(digests, "error: "+err.Error())
+						continue
+					}
+					h := sha256.Sum256(buf.Bytes())
+					digests = append(digests, hex.EncodeToString(h[:]))
+				}
+				res["digests"] = digests
+				res["ok"] = true
+			}
+		}()
+		if err := enc.Encode(res); err != nil {
+			os.Exit(2)
+		}
+	}
+	out.Flush()
+	os.Exit(0)
+}
